@@ -27,6 +27,8 @@ FIXED = [
   "contains_v3_3_term only knew null: blocks whose only 3.3 feature was an array, a map, a nested null or .get() were declared version 3 with a version 0 signature and accepted under any declared version"),
  ("C14", "fix: printed Datalog escapes quotes", "C14/string/*",
   "strings and map-key strings were printed without escaping: a value such as a\"), admin(\"b printed as two predicates; backslashes and newlines printed as text the parser refuses or reads differently (also C20: parameter values made of Datalog syntax)"),
+ ("C20", "fix: parameters nested in collections are substituted", "C20/panic/biscuit-auth/src/token/builder/term.rs:222|230",
+  "Rule / Op apply_parameters did not recurse into sets, arrays and maps: a bound parameter nested in a rule head, body or expression literal survived to convert() -> panic 'Remaining parameter'; nested parameters were not collected either, so unbound ones were accepted on add; a map-key parameter bound to a non-key value panicked the same way"),
  ("C14", "fix: an empty map parses as a fact", "C14/term/map-empty, map-*-key-map-empty, array-of-one-map-empty",
   "the empty map `{}` printed by the library could not be parsed back in predicate position (the set parser ran first and failed hard)"),
  ("C14", "fix: 'hex:' parses as the empty byte array", "C14/term/bytes-empty, *-bytes-empty",
